@@ -56,8 +56,7 @@ if --max-len > 0, it will apply only to branches with length <= max-len
 
 		lmean := setlengthmean
 		for tr := range treechan {
-			if cmd.Flags().Changed("min-mean") && cmd.Flags().Changed("max-mean") &&
-				setlengthmeanMin < setlengthmeanMax && setlengthmeanMin >= 0 && setlengthmeanMax > 0 {
+			if setlengthmeanMin < setlengthmeanMax && setlengthmeanMin >= 0 && setlengthmeanMax > 0 {
 				lmean = gostats.Float64RangeF(setlengthmeanMin, setlengthmeanMax)
 			}
 			if tr.Err != nil {
@@ -83,8 +82,8 @@ func init() {
 
 	randbrlenCmd.PersistentFlags().StringVarP(&intreefile, "input", "i", "stdin", "Input tree")
 	randbrlenCmd.Flags().Float64VarP(&setlengthmean, "mean", "m", 0.1, "Mean of the exponential distribution of branch lengths")
-	randbrlenCmd.Flags().Float64Var(&setlengthmeanMin, "min-mean", 0.001, "Mean of the exponential distribution of branch lengths will be drawn uniformly in the interval [min-mean,max-mean]")
-	randbrlenCmd.Flags().Float64Var(&setlengthmeanMax, "max-mean", 0.05, "Mean of the exponential distribution of branch lengths will be drawn uniformly in the interval [min-mean,max-mean]")
+	randbrlenCmd.Flags().Float64Var(&setlengthmeanMin, "min-mean", 0, "Mean of the exponential distribution of branch lengths will be drawn uniformly in the interval [min-mean,max-mean] (taken into account iff min-mean < max-mean)")
+	randbrlenCmd.Flags().Float64Var(&setlengthmeanMax, "max-mean", 0, "Mean of the exponential distribution of branch lengths will be drawn uniformly in the interval [min-mean,max-mean] (taken into account iff min-mean < max-mean)")
 	randbrlenCmd.Flags().Float64Var(&setlengthMinLen, "min-len", -1, "Applies only to branches having length >= min-length (taken into account iff > 0)")
 	randbrlenCmd.Flags().Float64Var(&setlengthMaxLen, "max-len", -1, "Applies only to branches having length <= max-length (taken into account iff > 0)")
 	randbrlenCmd.PersistentFlags().StringVarP(&outtreefile, "output", "o", "stdout", "Random length output tree file")
